@@ -166,6 +166,10 @@ def _run_events(ctx, key, stmt, context, max_id=50):
     I = interp.Interp(fx, hooks=[hook], max_depth=10, max_paths=64, max_steps=100000)
     holder = Adt(None, None, {"0": max_id})
     outs = I.run(fx.fn(key), [stmt, context, _MutInt(I, holder)])
+    from ..backend import fold_verdict
+    msg = fold_verdict(outs, "R-LINCTX: %s" % key.split(" as ")[0].lstrip("<"))
+    if msg:
+        return [], [("panic", msg)]
     return [o for o in outs if not getattr(o, "diverged", None)], events
 
 
@@ -201,7 +205,7 @@ def rule_linear_ctx(ctx):
                                                                         "free_vars_clauses": Adt("core::option::Option", "Some", {"0": SetVal(set(fv))})})
                 outs, events = _run_events(ctx, key, stmt, tctx(C, {V: "Prd"}))
                 if len(outs) != 1:
-                    bad.append((C, fv, "could not be folded (%d paths)" % len(outs)))
+                    bad.append((C, fv, events[0][1] if events and events[0][0] == "panic" else "no result"))
                     continue
                 lins = [e for e in events if e[0] == "linearize"]
                 # the kept variables may be reordered (filter_by_set fills holes from the end): any order, but exactly the
@@ -264,7 +268,7 @@ def rule_linear_ctx(ctx):
                         "next": Sym("next"), "free_vars_next": Adt("core::option::Option", "Some", {"0": SetVal(set(fnx) | {W})})})
                     outs, events = _run_events(ctx, key, stmt, tctx(C))
                     if len(outs) != 1:
-                        bad.append((C, fc, fnx, "could not be folded (%d paths)" % len(outs)))
+                        bad.append((C, fc, fnx, events[0][1] if events and events[0][0] == "panic" else "no result"))
                         continue
                     env_set = [x for x in C if x in fc]
                     nxt_set = [x for x in C if x in fnx]
